@@ -141,11 +141,18 @@ func (m *monState) representable(lib string) bool {
 	return ok
 }
 
-func resolveFormat(f uint8) uint8 {
+// resolveWith: the format AUTO stands for when DefaultSerializationFormat = def (the monitor and the generator
+// track the variable from the `cfg` lines of the case; they never read it from the package while a case runs).
+func resolveWith(def, f uint8) uint8 {
 	if f == dsd.AUTO {
-		return dsd.DefaultSerializationFormat
+		return def
 	}
 	return f
+}
+
+// hasMediaType: formats that can be named in a Content-Type at all (registered media types of the four codecs).
+func hasMediaType(f uint8) bool {
+	return f == dsd.JSON || f == dsd.CBOR || f == dsd.MsgPack || f == dsd.YAML
 }
 
 var contractFailures, contractSamples int
@@ -154,17 +161,24 @@ var contractExample = map[string]string{}
 
 func monitor(c hxlib.Case, outs []string) (vs []hxlib.Violation) {
 	st := &monState{rep: map[string]bool{}}
+	// the two package variables, as assigned by the `cfg` lines of the case
+	curSer, curComp := initSer, initComp
 	add := func(i int, sig, what string) {
 		lo := i
 		for lo > 0 && !strings.HasPrefix(c.Lines[lo], "val ") {
 			lo--
 		}
 		var lines, o []string
+		for j := 0; j < lo; j++ {
+			if strings.HasPrefix(c.Lines[j], "cfg ") { // assignments of the package variables are part of the input
+				lines, o = append(lines, c.Lines[j]), append(o, outs[j])
+			}
+		}
 		for j := lo; j <= i; j++ {
 			// keep the value, the facts and the ops that lead to the failing one (facts are needed by the model on replay)
 			w := strings.SplitN(c.Lines[j], " ", 2)[0]
 			switch w {
-			case "val", "enc", "enci", "raw", "cd", "gz", "gun", "gze":
+			case "val", "enc", "enci", "raw", "cd", "gz", "gun", "gze", "cfg":
 				lines, o = append(lines, c.Lines[j]), append(o, outs[j])
 			default:
 				if j >= i-3 {
@@ -174,27 +188,54 @@ func monitor(c hxlib.Case, outs []string) (vs []hxlib.Violation) {
 		}
 		vs = append(vs, hxlib.Violation{Sig: sig, What: what, Lines: lines, Output: o})
 	}
-	// expectation for the next `load @` / `loadreq` / `loadresp` / `mimeload @t @m` line
+	// the whole history up to op i (held results, concurrency: the earlier ops are the input)
+	addFull := func(i int, sig, what string) {
+		vs = append(vs, hxlib.Violation{Sig: sig, What: what, Lines: append([]string{}, c.Lines[:i+1]...), Output: append([]string{}, outs[:i+1]...)})
+	}
+	// expectation for the next `load @` / `loadreq` / `loadresp` / `mimeload @t @m` line, and for every later `held`
 	type pend struct {
 		sig    string
 		format uint8
 		raw    bool
 		what   string
+		id     string // the dumped value
+		at     int    // op index of the dump
+		failed bool   // already reported by the load that followed the dump
 	}
 	var pendLoad, pendReq, pendResp, pendMime *pend
+	wantLoad := func(p *pend) string {
+		if p.raw {
+			return fmt.Sprintf("%d err israw", dsd.RAW)
+		}
+		return fmt.Sprintf("%d ok %s", p.format, p.id)
+	}
 	checkLoad := func(i int, p *pend) {
 		o := outs[i]
 		if p.raw {
-			if want := fmt.Sprintf("%d err israw", dsd.RAW); o != want {
+			if want := wantLoad(p); o != want {
+				p.failed = true
 				add(i, p.sig, fmt.Sprintf("%s: loading reports %q, want %q (format RAW reported through ErrIsRaw)", p.what, o, want))
 			}
 			return
 		}
-		want := fmt.Sprintf("%d ok %s", p.format, st.id)
-		if o != want {
+		if want := wantLoad(p); o != want {
+			p.failed = true
 			add(i, p.sig, fmt.Sprintf("%s: loading gives %q, want %q (format %s and a value equal to the dumped one)", p.what, o, want, fname(p.format)))
 		}
 	}
+	// results held for later `held` ops: one entry per successful dump, in the executor's order and with its cap;
+	// nil = no demand on that entry
+	var heldExp []*pend
+	pushHeld := func(p *pend) {
+		heldExp = append(heldExp, p)
+		if len(heldExp) > heldCap {
+			heldExp = heldExp[1:]
+		}
+	}
+	resolveFormat := func(f uint8) uint8 { return resolveWith(curSer, f) }
+	// wildcardOK: a wildcard / missing Accept header is answered in the default format, which must be one that a
+	// Content-Type can name
+	wildcardOK := func() bool { return hasMediaType(curSer) }
 	// namesEncoding: the content type names the encoding actually used, i.e. the body decodes with the codec the
 	// content type names to a value equal to the dumped one.
 	namesEncoding := func(i int, sig, ct string, body []byte) (lib string, ok bool) {
@@ -228,6 +269,31 @@ func monitor(c hxlib.Case, outs []string) (vs []hxlib.Violation) {
 			continue
 		}
 		switch f[0] {
+		case "cfg":
+			if a, ok := parseU8(f[1]); ok {
+				curSer = a
+			}
+			if b, ok := parseU8(f[2]); ok {
+				curComp = b
+			}
+		case "held":
+			parts := strings.Split(o, " | ")
+			if o == "none" || len(parts) != len(heldExp) {
+				break
+			}
+			for k, part := range parts {
+				p := heldExp[k]
+				if p == nil || p.failed {
+					continue
+				}
+				_, res, _ := strings.Cut(part, " ") // the first word (same / changed) is compared with the model, not demanded here
+				if want := wantLoad(p); res != want {
+					addFull(i, "C09:held:"+strings.TrimPrefix(p.sig, "C09:"), fmt.Sprintf("%s (op %d) succeeded and its result was kept; after %d further operations loading that result gives %q, want %q (an equal value and the format it was dumped in)", p.what, p.at, i-p.at-1, res, want))
+					heldExp[k] = nil
+				}
+			}
+		case "par":
+			vs = append(vs, monitorPar(i, c, f, o, curSer, curComp)...)
 		case "val":
 			st = &monState{rep: map[string]bool{}}
 			if v, err := parseValue(f[1], hxlib.UnHex(f[2])); err == nil {
@@ -251,15 +317,15 @@ func monitor(c hxlib.Case, outs []string) (vs []hxlib.Violation) {
 			}
 			if f[0] == "dac" {
 				cm, ok := parseU8(f[2])
-				if !ok || (cm != dsd.GZIP && cm != dsd.AUTO) {
-					break // not a supported compression: no demand
+				if !ok || (cm != dsd.GZIP && cm != dsd.AUTO) || (cm == dsd.AUTO && curComp != dsd.GZIP) {
+					break // not a supported compression (or AUTO while the default is none): no demand
 				}
 				what = "DumpAndCompress(v, " + fname(fm) + ", " + fname(cm) + ")"
 				sig = "C09:roundtrip:compress:" + fname(fm) + ":" + fname(cm)
 			}
 			rf := resolveFormat(fm)
 			switch {
-			case rf == dsd.RAW && fm == dsd.RAW:
+			case rf == dsd.RAW:
 				if st.tag != "B" {
 					break // not a RAW value
 				}
@@ -267,7 +333,7 @@ func monitor(c hxlib.Case, outs []string) (vs []hxlib.Violation) {
 					add(i, sig, what+" of a byte slice failed: "+o)
 					break
 				}
-				pendLoad = &pend{sig: sig, raw: true, what: what}
+				pendLoad = &pend{sig: sig, raw: true, what: what, id: st.id, at: i}
 				if f[0] != "dac" {
 					blob := hxlib.UnHex(strings.Fields(o)[1])
 					if len(blob) < 1 || !bytes.Equal(blob[1:], *(st.val.(*[]byte))) {
@@ -296,7 +362,7 @@ func monitor(c hxlib.Case, outs []string) (vs []hxlib.Violation) {
 					add(i, sig, what+" of a representable value failed: "+o)
 					break
 				}
-				pendLoad = &pend{sig: sig, format: rf, what: what}
+				pendLoad = &pend{sig: sig, format: rf, what: what, id: st.id, at: i}
 			}
 		case "load":
 			if f[1] == "@" && pendLoad != nil {
@@ -347,7 +413,7 @@ func monitor(c hxlib.Case, outs []string) (vs []hxlib.Violation) {
 				if supported && l != lib {
 					add(i, sig, "DumpToHTTPRequest(v, "+fname(fm)+") used the "+l+" encoding")
 				}
-				pendReq = &pend{sig: sig, format: formatOfLib[l], what: "DumpToHTTPRequest(v, " + fname(fm) + ")"}
+				pendReq = &pend{sig: sig, format: formatOfLib[l], what: "DumpToHTTPRequest(v, " + fname(fm) + ")", id: st.id, at: i}
 			}
 		case "loadreq":
 			if pendReq != nil {
@@ -360,7 +426,7 @@ func monitor(c hxlib.Case, outs []string) (vs []hxlib.Violation) {
 			}
 			sig := "C09:http-response"
 			ar := readAccept(reqAccept)
-			demanded := reqAcceptSet && (len(ar.named) > 0 || ar.wildcard)
+			demanded := reqAcceptSet && (len(ar.named) > 0 || (ar.wildcard && wildcardOK()))
 			// every codec the header could be answered with must be able to represent the value
 			allRep := st.representable("json") && st.representable("yaml") && st.representable("cbor") && st.representable("msgpack")
 			if strings.HasPrefix(o, "err ") {
@@ -379,7 +445,7 @@ func monitor(c hxlib.Case, outs []string) (vs []hxlib.Violation) {
 				break
 			}
 			if l, ok := namesEncoding(i, sig, string(hxlib.UnHex(ct)), hxlib.UnHex(body)); ok {
-				pendResp = &pend{sig: sig, format: formatOfLib[l], what: fmt.Sprintf("DumpToHTTPResponse for Accept %q", reqAccept)}
+				pendResp = &pend{sig: sig, format: formatOfLib[l], what: fmt.Sprintf("DumpToHTTPResponse for Accept %q", reqAccept), id: st.id, at: i}
 			}
 		case "loadresp":
 			if pendResp != nil {
@@ -397,7 +463,7 @@ func monitor(c hxlib.Case, outs []string) (vs []hxlib.Violation) {
 			ar := readAccept(accept)
 			allRep := st.representable("json") && st.representable("yaml") && st.representable("cbor") && st.representable("msgpack")
 			if strings.HasPrefix(o, "err ") {
-				if (len(ar.named) > 0 || ar.wildcard) && allRep {
+				if (len(ar.named) > 0 || (ar.wildcard && wildcardOK())) && allRep {
 					add(i, sig, fmt.Sprintf("MimeDump failed (%s) although Accept %q names a supported format or a wildcard", o, accept))
 				}
 				break
@@ -413,7 +479,7 @@ func monitor(c hxlib.Case, outs []string) (vs []hxlib.Violation) {
 				if of[1] != strconv.Itoa(int(formatOfLib[l])) {
 					add(i, sig, "MimeDump reports format "+of[1]+" but used the "+l+" encoding")
 				}
-				pendMime = &pend{sig: sig, format: formatOfLib[l], what: fmt.Sprintf("MimeDump for Accept %q", accept)}
+				pendMime = &pend{sig: sig, format: formatOfLib[l], what: fmt.Sprintf("MimeDump for Accept %q", accept), id: st.id, at: i}
 			}
 		case "mimeload":
 			if f[1] == "@t" && f[2] == "@m" && pendMime != nil {
@@ -458,8 +524,115 @@ func monitor(c hxlib.Case, outs []string) (vs []hxlib.Violation) {
 					}
 					break
 				}
-				if (len(ar.named) > 0 || ar.wildcard) && validHeaderValue(accept) && o != "err transport" {
+				if (len(ar.named) > 0 || (ar.wildcard && wildcardOK())) && validHeaderValue(accept) && o != "err transport" {
 					add(i, sig, fmt.Sprintf("Accept %q names a supported format or a wildcard, but over a real connection the client gets %s", accept, o))
+				}
+			}
+		}
+		// every successful dump is held (same rule as the executor and the model driver)
+		if strings.HasPrefix(o, "ok ") {
+			switch f[0] {
+			case "dump", "dumpi", "dac":
+				pushHeld(pendLoad)
+			case "mimedump":
+				pushHeld(pendMime)
+			case "req":
+				ct, _ := kv(o, "ct")
+				body, _ := kv(o, "body")
+				if ct != "nil" && body != "nil" {
+					pushHeld(pendReq)
+				}
+			case "resp":
+				if ct, _ := kv(o, "ct"); ct != "nil" {
+					pushHeld(pendResp)
+				}
+			}
+		}
+	}
+	return vs
+}
+
+// monitorPar: `par <rounds> <tag> <items> <valhex>...` — goroutine g dumped value g with every item `rounds` times
+// while the other goroutines did the same with their values; all results were loaded afterwards. Each must load to
+// the goroutine's own value and the format it was dumped in.
+func monitorPar(i int, c hxlib.Case, f []string, o string, curSer, curComp uint8) (vs []hxlib.Violation) {
+	if len(f) < 5 {
+		return nil
+	}
+	tag, items := f[2], strings.Split(f[3], ",")
+	parts := strings.Split(o, " | ")
+	if len(parts) != len(items)*len(f[4:]) {
+		return nil
+	}
+	bad := func(sig, what string) {
+		vs = append(vs, hxlib.Violation{Sig: sig, What: what, Lines: append([]string{}, c.Lines[:i+1]...), Output: []string{o}})
+	}
+	for g, h := range f[4:] {
+		v, err := parseValue(tag, hxlib.UnHex(h))
+		if err != nil {
+			return nil
+		}
+		id := vid(v)
+		rep := map[string]bool{}
+		representableIn := func(lib string) bool {
+			if r, ok := rep[lib]; ok {
+				return r
+			}
+			_, ok := representable(lib, tag, v)
+			rep[lib] = ok
+			return ok
+		}
+		for k, it := range items {
+			got := strings.TrimPrefix(parts[g*len(items)+k], fmt.Sprintf("g%d.%d ", g, k))
+			switch it[0] {
+			case 'd', 'c':
+				spec, sig := it[1:], "C09:concurrent:dump:"
+				if it[0] == 'c' {
+					a, b, _ := strings.Cut(spec, ".")
+					cm, ok := parseU8(b)
+					if !ok || (cm != dsd.GZIP && cm != dsd.AUTO) || (cm == dsd.AUTO && curComp != dsd.GZIP) {
+						continue
+					}
+					spec, sig = a, "C09:concurrent:compress:"
+				}
+				fm, ok := parseU8(spec)
+				if !ok {
+					continue
+				}
+				rf := resolveWith(curSer, fm)
+				var want string
+				switch {
+				case rf == dsd.RAW && tag == "B":
+					want = fmt.Sprintf("%d err israw", dsd.RAW)
+				case libOfFormat[rf] != "" && representableIn(libOfFormat[rf]):
+					want = fmt.Sprintf("%d ok %s", rf, id)
+				default:
+					continue
+				}
+				if got != want {
+					bad(sig+fname(fm), fmt.Sprintf("goroutine %d dumped its value with item %s %s times while %d other goroutines dumped theirs; loading its results afterwards gives {%s}, want only %q", g, it, f[1], len(f[4:])-1, got, want))
+				}
+			case 'm':
+				accept := string(hxlib.UnHex(it[1:]))
+				ar := readAccept(accept)
+				allRep := representableIn("json") && representableIn("yaml") && representableIn("cbor") && representableIn("msgpack")
+				if !allRep {
+					continue
+				}
+				if strings.HasPrefix(got, "err ") && !strings.Contains(got, " / ") {
+					if len(ar.named) > 0 || (ar.wildcard && hasMediaType(curSer)) {
+						bad("C09:concurrent:mimedump", fmt.Sprintf("goroutine %d: MimeDump for Accept %q failed (%s) under concurrency", g, accept, got))
+					}
+					continue
+				}
+				w := strings.Fields(got)
+				okShape := len(w) == 4 && w[1] == "ok" && w[2] == id && strings.HasPrefix(w[3], "ct=")
+				if okShape {
+					l := contentTypeLib(string(hxlib.UnHex(w[3][3:])))
+					okShape = l != "" && strconv.Itoa(int(formatOfLib[l])) == w[0]
+				}
+				if !okShape {
+					bad("C09:concurrent:mimedump", fmt.Sprintf("goroutine %d called MimeDump for Accept %q %s times while %d other goroutines dumped their values; loading the results with the returned mime type gives {%s}, want one result: the format the mime type names and a value equal to the dumped one (%s)", g, accept, f[1], len(f[4:])-1, got, id))
 				}
 			}
 		}
@@ -473,6 +646,71 @@ type gen struct {
 	r    *hxlib.Run
 	rng  *rand.Rand
 	emit func(hxlib.Case)
+	// the generator's own record of the two package variables within the case being built (set by cfgLine)
+	ser, comp uint8
+}
+
+// Values of the two package variables: formats of the property, and (rarely) values that are none.
+var serDefaults = []uint8{dsd.JSON, dsd.CBOR, dsd.MsgPack, dsd.YAML, dsd.CBOR, dsd.MsgPack, dsd.YAML, dsd.GenCode, dsd.RAW}
+var oddSerDefaults = []uint8{dsd.AUTO, dsd.GZIP, dsd.LIST, 2, 255}
+var oddCompDefaults = []uint8{dsd.AUTO, dsd.JSON, dsd.LIST, 91}
+
+// cfgLine assigns the package variables for the rest of the case (the executor restores the initial values when
+// the case ends). share = one in how many cases leaves them as initialised.
+func (g *gen) cfgLine(force bool) []string {
+	g.ser, g.comp = initSer, initComp
+	if !force && g.rng.Intn(3) != 0 {
+		g.r.Count("cfg:initial")
+		return nil
+	}
+	return g.recfg()
+}
+
+// recfg: a (re)assignment in the middle of a case.
+func (g *gen) recfg() []string {
+	g.ser = serDefaults[g.rng.Intn(len(serDefaults))]
+	if g.rng.Intn(12) == 0 {
+		g.ser = oddSerDefaults[g.rng.Intn(len(oddSerDefaults))]
+	}
+	g.comp = dsd.GZIP
+	if g.rng.Intn(10) == 0 {
+		g.comp = oddCompDefaults[g.rng.Intn(len(oddCompDefaults))]
+	}
+	g.r.Count("cfg:default-serialization:" + fname(g.ser))
+	g.r.Count("cfg:default-compression:" + fname(g.comp))
+	return []string{fmt.Sprintf("cfg %d %d", g.ser, g.comp)}
+}
+
+func (g *gen) resolve(fm uint8) uint8 { return resolveWith(g.ser, fm) }
+
+// ownDump: the blob Dump(v, fm) is expected to produce under the generator's record of the default, built from
+// the codec's payload without calling dsd (the generator never calls the package under test: a call made while
+// generating could hide or change history-dependent behaviour). Only used to prepare gzip facts and mutation
+// seeds; if the package writes something else, the model reports the missing fact.
+func (g *gen) ownDump(tag string, v any, fm uint8, payload map[string][]byte) []byte {
+	rf := g.resolve(fm)
+	if rf == dsd.RAW {
+		if tag != "B" {
+			return nil
+		}
+		return append([]byte{dsd.RAW}, *(v.(*[]byte))...)
+	}
+	lib := libOfFormat[rf]
+	if lib == "" || payload[lib] == nil {
+		return nil
+	}
+	return append([]byte{rf}, payload[lib]...)
+}
+
+// compressionOf: the compression DumpAndCompress(…, comp) uses under the generator's record (0 = refused).
+func (g *gen) compressionOf(comp uint8) uint8 {
+	if comp == dsd.AUTO {
+		comp = g.comp
+	}
+	if comp == dsd.GZIP {
+		return dsd.GZIP
+	}
+	return 0
 }
 
 func hexs(s string) string { return hxlib.Hex([]byte(s)) }
@@ -484,6 +722,9 @@ func (g *gen) valueLines(tag string, v any) (lines []string, payload map[string]
 	if tag == "B" {
 		lines = append(lines, "raw "+hxlib.Hex(*(v.(*[]byte))))
 	}
+	// an empty payload (a request without body, a load before anything was dumped) under a default format whose
+	// codec accepts it (yaml does)
+	lines = append(lines, g.decFacts(tag, nil, libs)...)
 	for _, lib := range libs {
 		p, err := libMarshal(lib, dumpArg(tag, v))
 		if err != nil {
@@ -586,7 +827,10 @@ func (g *gen) pickValue(maxKeys int) (string, any) {
 // roundtripCase: one value through Dump / DumpIndent / DumpAndCompress × formats × compressions and back through
 // Load / DecompressAndLoad / LoadAsFormat.
 func (g *gen) roundtripCase(tag string, v any, noModel bool, kind string) {
-	lines, payload := g.valueLines(tag, v)
+	lines := g.cfgLine(false)
+	vl, payload := g.valueLines(tag, v)
+	lines = append(lines, vl...)
+	var cur []byte // the generator's record of the last dumped blob (`@`)
 	fmts := append([]uint8{}, dumpFormats...)
 	fmts = append(fmts, otherFormats[g.rng.Intn(len(otherFormats))])
 	g.rng.Shuffle(len(fmts), func(i, j int) { fmts[i], fmts[j] = fmts[j], fmts[i] })
@@ -594,8 +838,12 @@ func (g *gen) roundtripCase(tag string, v any, noModel bool, kind string) {
 	for _, fm := range fmts {
 		g.r.Count("dump-format:" + fname(fm))
 		lines = append(lines, fmt.Sprintf("dump %d", fm), "load @")
-		if lib := libOfFormat[resolveFormat(fm)]; lib != "" && payload[lib] != nil {
-			lines = append(lines, fmt.Sprintf("laf %d %s", resolveFormat(fm), hxlib.Hex(payload[lib])))
+		plain := g.ownDump(tag, v, fm, payload)
+		if plain != nil {
+			cur = plain
+		}
+		if lib := libOfFormat[g.resolve(fm)]; lib != "" && payload[lib] != nil {
+			lines = append(lines, fmt.Sprintf("laf %d %s", g.resolve(fm), hxlib.Hex(payload[lib])))
 		}
 		// compression (for about half of the formats of a case): the gzip facts are computed from what the real
 		// Dump returns
@@ -607,20 +855,22 @@ func (g *gen) roundtripCase(tag string, v any, noModel bool, kind string) {
 			comp = otherComps[g.rng.Intn(len(otherComps))]
 		}
 		g.r.Count("compression:" + fname(comp))
-		var last []byte
-		if plain, err := dsd.Dump(arg, fm); err == nil {
+		if plain != nil {
 			z := gzipBytes(plain)
 			lines = append(lines, "gz "+hxlib.Hex(plain)+" "+hxlib.Hex(z))
-			last = plain
-			if _, ok := dsd.ValidateCompressionFormat(comp); ok {
-				last = append([]byte{dsd.GZIP}, z...)
+			if g.compressionOf(comp) == dsd.GZIP {
+				cur = append([]byte{dsd.GZIP}, z...)
 			}
 		}
 		lines = append(lines, fmt.Sprintf("dac %d %d", fm, comp), "load @")
-		if g.rng.Intn(2) == 0 && len(last) > 0 {
+		if g.rng.Intn(2) == 0 && len(cur) > 0 {
 			// DecompressAndLoad directly, on what follows the identifier (gzip data, or a plain payload)
-			lines = append(lines, g.gunzipFact(last[1:])...)
+			lines = append(lines, g.gunzipFact(cur[1:])...)
 			lines = append(lines, fmt.Sprintf("dal %d @1", []uint8{dsd.GZIP, dsd.AUTO, dsd.JSON, 91}[g.rng.Intn(4)]))
+		}
+		if g.rng.Intn(12) == 0 {
+			// the variables are assigned in the middle: later dumps follow the new values, earlier results stay loadable
+			lines = append(lines, g.recfg()...)
 		}
 	}
 	if payload["json"] != nil {
@@ -633,6 +883,11 @@ func (g *gen) roundtripCase(tag string, v any, noModel bool, kind string) {
 			}
 		}
 	}
+	// every result of the case (the last 16) once more, after everything else that was done
+	if g.rng.Intn(4) == 0 {
+		lines = append(lines, g.recfg()...)
+	}
+	lines = append(lines, "held")
 	g.emit(hxlib.Case{Lines: lines, NonTrivial: tag != "U", Kind: kind + ":" + tag, NoModel: noModel})
 }
 
@@ -761,6 +1016,9 @@ func (g *gen) acceptHeader() (string, bool) {
 	return sb.String(), nontrivial
 }
 
+// noPreference: Accept values that leave the choice to the server.
+var noPreference = []string{"", "*/*", "*", "text/*", "image/webp, */*;q=0.8", "*/*;q=0.1", " */* "}
+
 var fixedAccepts = []string{
 	"", "*", "*/*", "application/json", "application/cbor", "application/msgpack", "application/yaml", "text/yaml", "text/yml",
 	"application/json, image/webp", "image/webp, application/json", "application/json;q=0.9, image/webp", "text/yAMl", " * , yaml ",
@@ -772,7 +1030,9 @@ var fixedAccepts = []string{
 // httpCase: one value through DumpToHTTPRequest / LoadFromHTTPRequest / DumpToHTTPResponse / LoadFromHTTPResponse /
 // MimeDump / MimeLoad for every format and for generated Accept / Content-Type headers.
 func (g *gen) httpCase(tag string, v any, accepts []string, noModel bool, kind string) {
-	lines, payload := g.valueLines(tag, v)
+	lines := g.cfgLine(false)
+	vl, payload := g.valueLines(tag, v)
+	lines = append(lines, vl...)
 	fmts := []uint8{dsd.JSON, dsd.CBOR, dsd.MsgPack, dsd.YAML, dsd.AUTO, dsd.RAW, dsd.GenCode}
 	fmts = append(fmts, otherFormats[g.rng.Intn(len(otherFormats))])
 	g.rng.Shuffle(len(fmts), func(i, j int) { fmts[i], fmts[j] = fmts[j], fmts[i] })
@@ -798,7 +1058,20 @@ func (g *gen) httpCase(tag string, v any, accepts []string, noModel bool, kind s
 			g.r.Count("accept-header:neither")
 		}
 		lines = append(lines, "ffa "+hexs(a), "setreq "+hexs(a)+" nil nil", "resp", "loadresp", "mimedump "+hexs(a), "mimeload @t @m")
+		if g.rng.Intn(16) == 0 {
+			lines = append(lines, g.recfg()...)
+		}
 	}
+	// "no preference" in all its spellings, under the current value of the default: a missing header, an empty one,
+	// and the exact wildcard strings
+	lines = append(lines, "setreq nil nil nil", "resp", "loadresp")
+	for k, a := range noPreference {
+		if k >= 2 && g.rng.Intn(3) != 0 {
+			continue // "" and "*/*" always, the other spellings in a third of the cases each
+		}
+		lines = append(lines, "setreq "+hexs(a)+" nil nil", "resp", "loadresp", "mimedump "+hexs(a), "mimeload @t @m")
+	}
+	lines = append(lines, "held")
 	// loading with arbitrary content types: each codec's payload under generated headers (also the wrong ones)
 	for k := 0; k < 3; k++ {
 		lib := libs[g.rng.Intn(len(libs))]
@@ -895,10 +1168,16 @@ func (g *gen) malformedCase(n int, noModel bool) {
 	} else {
 		lines, _ = g.valueLines(tag, v)
 	}
-	arg := dumpArg(tag, v)
+	g.ser, g.comp = initSer, initComp
+	payload := map[string][]byte{}
+	for _, lib := range libs {
+		if p, err := libMarshal(lib, dumpArg(tag, v)); err == nil {
+			payload[lib] = p
+		}
+	}
 	var seeds [][]byte
 	for _, fm := range dumpFormats {
-		if b, err := dsd.Dump(arg, fm); err == nil {
+		if b := g.ownDump(tag, v, fm, payload); b != nil {
 			seeds = append(seeds, b)
 			if g.rng.Intn(4) == 0 {
 				seeds = append(seeds, append([]byte{dsd.GZIP}, gzipBytes(b)...))
@@ -941,8 +1220,198 @@ func (g *gen) malformedCase(n int, noModel bool) {
 	g.emit(hxlib.Case{Lines: lines, NonTrivial: true, Kind: kind + ":" + tag, NoModel: noModel})
 }
 
+// variant: a value of the same type and (in the binary formats) the same encoded size as v, but different.
+func (g *gen) variant(tag string, v any) any {
+	w, err := parseValue(tag, valueJSON(tag, v))
+	if err != nil {
+		return v
+	}
+	switch x := w.(type) {
+	case *Subject:
+		x.T = !x.T
+		x.B ^= 0x55
+		if b := []byte(x.S); len(b) > 0 && b[0] >= 'a' && b[0] < 'z' {
+			b[0]++
+			x.S = string(b)
+		}
+	case *GSubject:
+		x.B ^= 0x55
+		x.N ^= 1
+	case *[]byte:
+		b := append([]byte(nil), *x...)
+		for i := range b {
+			b[i] ^= 0xff
+		}
+		if len(b) == 0 {
+			b = []byte{7}
+		}
+		*x = b
+	}
+	return w
+}
+
+func (g *gen) heldValues(maxKeys int) (tag string, vals []any) {
+	switch g.rng.Intn(10) {
+	case 0, 1:
+		tag = "G"
+	case 2, 3:
+		tag = "B"
+	default:
+		tag = "S"
+	}
+	mk := func() any {
+		switch tag {
+		case "G":
+			return genGSubject(g.rng)
+		case "B":
+			b := genBytes(g.rng)
+			return &b
+		}
+		return genSubject(g.rng, maxKeys)
+	}
+	first := mk()
+	vals = []any{first, g.variant(tag, first)} // same size, different content
+	for n := g.rng.Intn(3); n > 0; n-- {
+		vals = append(vals, mk()) // other sizes
+	}
+	if g.rng.Intn(3) == 0 {
+		w, _ := parseValue(tag, valueJSON(tag, first)) // an equal value in different memory
+		vals = append(vals, w)
+	}
+	return tag, vals
+}
+
+// heldCase: history. Several values of one type are dumped through every dump function (Dump, DumpIndent,
+// DumpAndCompress, MimeDump, DumpToHTTPRequest, DumpToHTTPResponse), in mixed order, same and different sizes and
+// formats, with loads and assignments of the package variables in between; the results are kept as returned and
+// loaded again later (`held`), several times. On the model (pure functions) a held result is just a value; on the
+// implementation this is where shared buffers, pooled writers, cached encoders and remembered defaults show.
+func (g *gen) heldCase(noModel bool) {
+	maxKeys := 1
+	if noModel {
+		maxKeys = 5
+	}
+	tag, vals := g.heldValues(maxKeys)
+	lines := g.cfgLine(false)
+	type valInfo struct {
+		lines   []string
+		payload map[string][]byte
+	}
+	infos := make([]valInfo, len(vals))
+	for i, v := range vals {
+		infos[i].lines, infos[i].payload = g.valueLines(tag, v)
+	}
+	steps := 4 + g.rng.Intn(9)
+	curVal := -1
+	for s := 0; s < steps; s++ {
+		if k := g.rng.Intn(len(vals)); k != curVal || s == 0 {
+			curVal = k
+			lines = append(lines, infos[k].lines...)
+		}
+		v, payload := vals[curVal], infos[curVal].payload
+		fm := dumpFormats[g.rng.Intn(len(dumpFormats))]
+		if g.rng.Intn(3) == 0 {
+			fm = dsd.AUTO
+		}
+		switch op := g.rng.Intn(10); {
+		case op <= 1:
+			g.r.Count("held-op:dump")
+			lines = append(lines, fmt.Sprintf("dump %d", fm))
+			if g.rng.Intn(2) == 0 {
+				lines = append(lines, "load @")
+			}
+		case op <= 5:
+			g.r.Count("held-op:dac")
+			comp := compFormats[g.rng.Intn(len(compFormats))]
+			if plain := g.ownDump(tag, v, fm, payload); plain != nil {
+				lines = append(lines, "gz "+hxlib.Hex(plain)+" "+hxlib.Hex(gzipBytes(plain)))
+			}
+			lines = append(lines, fmt.Sprintf("dac %d %d", fm, comp))
+			if g.rng.Intn(2) == 0 {
+				lines = append(lines, "load @")
+			}
+		case op == 6:
+			if payload["json"] != nil {
+				ind := indents[g.rng.Intn(3)]
+				if p, err := jsonMarshalIndent(dumpArg(tag, v), ind); err == nil {
+					g.r.Count("held-op:dumpi")
+					lines = append(lines, "enci "+hexs(ind)+" "+hxlib.Hex(p))
+					lines = append(lines, g.decFacts(tag, p, []string{"json"})...)
+					lines = append(lines, fmt.Sprintf("dumpi %d %s", []uint8{dsd.JSON, dsd.AUTO}[g.rng.Intn(2)], hexs(ind)))
+				}
+			}
+		case op == 7:
+			g.r.Count("held-op:mimedump")
+			a := noPreference[g.rng.Intn(len(noPreference))]
+			if g.rng.Intn(2) == 0 {
+				a = fixedAccepts[g.rng.Intn(len(fixedAccepts))]
+			}
+			lines = append(lines, "mimedump "+hexs(a))
+			if g.rng.Intn(2) == 0 {
+				lines = append(lines, "mimeload @t @m")
+			}
+		default:
+			g.r.Count("held-op:http")
+			if g.rng.Intn(3) != 0 {
+				lines = append(lines, "newreq")
+			}
+			lines = append(lines, fmt.Sprintf("req %d", []uint8{dsd.JSON, dsd.CBOR, dsd.MsgPack, dsd.YAML}[g.rng.Intn(4)]))
+			if g.rng.Intn(2) == 0 {
+				lines = append(lines, "resp")
+			}
+		}
+		if g.rng.Intn(8) == 0 {
+			lines = append(lines, g.recfg()...)
+		}
+		if g.rng.Intn(5) == 0 {
+			lines = append(lines, "held")
+		}
+	}
+	lines = append(lines, "held", "held") // twice: loading must not consume or alter what it loads
+	g.emit(hxlib.Case{Lines: lines, NonTrivial: true, Kind: fmt.Sprintf("held:%s", tag), NoModel: noModel})
+}
+
+// parCase: the same functions called from several goroutines at once, each with its own value; everything returned
+// is kept and loaded after all goroutines are done (implementation + monitor only).
+func (g *gen) parCase() {
+	tag, vals := g.heldValues(3)
+	if tag == "G" && g.rng.Intn(2) == 0 {
+		tag, vals = "S", []any{genSubject(g.rng, 3), genSubject(g.rng, 3)}
+	}
+	if len(vals) > 4 {
+		vals = vals[:4]
+	}
+	lines := g.cfgLine(false)
+	var items []string
+	nz := 0
+	for n := 2 + g.rng.Intn(3); n > 0; n-- {
+		fm := []uint8{dsd.JSON, dsd.CBOR, dsd.MsgPack, dsd.YAML, dsd.AUTO, dsd.GenCode, dsd.RAW}[g.rng.Intn(7)]
+		switch k := g.rng.Intn(5); {
+		case k <= 1:
+			items = append(items, fmt.Sprintf("d%d", fm))
+		case k <= 3 && nz < 2:
+			nz++
+			items = append(items, fmt.Sprintf("c%d.%d", fm, compFormats[g.rng.Intn(len(compFormats))]))
+		default:
+			a := noPreference[g.rng.Intn(len(noPreference))]
+			if g.rng.Intn(2) == 0 {
+				a = "application/" + goodSubs[g.rng.Intn(4)]
+			}
+			items = append(items, "m"+hexs(a))
+		}
+	}
+	rounds := 4 + g.rng.Intn(12)
+	line := fmt.Sprintf("par %d %s %s", rounds, tag, strings.Join(items, ","))
+	for _, v := range vals {
+		line += " " + hxlib.Hex(valueJSON(tag, v))
+	}
+	g.r.Count(fmt.Sprintf("par:goroutines:%d", len(vals)))
+	lines = append(lines, line)
+	g.emit(hxlib.Case{Lines: lines, NonTrivial: true, Kind: "concurrent:" + tag, NoModel: true})
+}
+
 func generate(r *hxlib.Run, emit func(hxlib.Case)) {
-	g := &gen{r: r, rng: r.Rng, emit: emit}
+	g := &gen{r: r, rng: r.Rng, emit: emit, ser: initSer, comp: initComp}
 
 	// (0) regression corpus: the defects this check reproduced on the pinned tree, and the string tables
 	emit(hxlib.Case{Lines: []string{"lowerscan", "spacescan"}, NonTrivial: true, Kind: "unicode-tables"})
@@ -956,6 +1425,22 @@ func generate(r *hxlib.Run, emit func(hxlib.Case)) {
 		g.roundtripCase("B", &n, false, "corpus-roundtrip")
 		g.roundtripCase("G", &GSubject{}, false, "corpus-roundtrip")
 		g.httpCase("G", &GSubject{S: "g"}, fixedAccepts[:8], false, "corpus-http")
+		// strings that are the text of an escape sequence (value, slice element, map key and value)
+		esc := &Subject{S: `\u003cb\u003e \u0026 \\u003c \n \" \/ </script>`, Sa: []string{`\u003e`, "\u2028", `\ud800`}, M: map[string]string{`\u0026`: `\\u0026`}}
+		g.roundtripCase("S", esc, false, "corpus-roundtrip")
+		g.httpCase("S", esc, fixedAccepts[:8], false, "corpus-http")
+	}
+
+	// (0b) history: results kept while other dumps / loads / assignments of the package variables happen
+	for i := 0; i < r.Budget(500, 6000); i++ {
+		g.heldCase(false)
+	}
+	for i := 0; i < r.Budget(150, 2000); i++ {
+		g.heldCase(true)
+	}
+	// (0c) the same functions from several goroutines at once
+	for i := 0; i < r.Budget(100, 1200); i++ {
+		g.parCase()
 	}
 
 	// (1) dump / load round trips, model stream (maps with at most one key: deterministic payload bytes)
@@ -986,14 +1471,18 @@ func generate(r *hxlib.Run, emit func(hxlib.Case)) {
 		g.httpCase("S", genSubject(g.rng, 5), accepts, true, "http-maps")
 	}
 	// (3b) the same cycle over a real HTTP connection (httptest.Server), implementation + monitor only
-	for i := 0; i < r.Budget(150, 3000); i++ {
+	for i := 0; i < r.Budget(150, 2000); i++ {
 		tag, v := g.pickValue(3)
-		lines := []string{"val " + tag + " " + hxlib.Hex(valueJSON(tag, v))}
+		lines := g.cfgLine(false)
+		lines = append(lines, "val "+tag+" "+hxlib.Hex(valueJSON(tag, v)))
 		for _, fm := range []uint8{dsd.JSON, dsd.CBOR, dsd.MsgPack, dsd.YAML, dsd.AUTO, dsd.GenCode, dsd.RAW} {
 			lines = append(lines, fmt.Sprintf("wire %d", fm))
 		}
 		for k := 0; k < 4; k++ {
 			a, _ := g.acceptHeader()
+			if k == 3 {
+				a = noPreference[g.rng.Intn(len(noPreference))]
+			}
 			lines = append(lines, "wirea "+hexs(a))
 		}
 		g.emit(hxlib.Case{Lines: lines, NonTrivial: tag != "U", Kind: "http-wire:" + tag, NoModel: true})
@@ -1038,6 +1527,8 @@ func extra(*hxlib.Run) map[string]any {
 		"codec_contract_failures":                   contractFailures,
 		"codec_contract_failures_by_codec_and_type": contractByLib,
 		"codec_contract_failure_examples":           contractExample,
+		"held_results_note":                         "the model is a set of pure functions (PB.Model.Dsd; theorem held_blobs_roundtrip; package_state_surface pins the package's variables): a result is a value, independent of every other call. The held-results stream ties exactly this purity to the code: every slice / request body a dump function returned is kept as returned (kind held:*, and `held` at the end of every roundtrip / http case), further dumps and loads of other values (same and other sizes and formats) and assignments of DefaultSerializationFormat / DefaultCompressionFormat follow, then the kept results are loaded from the kept memory (twice) and compared with the values they were dumped from (monitor) and, byte for byte, with a copy taken when they were returned (flag same/changed, compared with the model, which always says same); kind concurrent:* does the same from 2-4 goroutines at once",
+		"package_variables_note":                    "dsd.DefaultSerializationFormat and dsd.DefaultCompressionFormat are inputs: `cfg` lines assign them in about a third of the roundtrip / http / http-wire / held / concurrent cases (distribution keys cfg:*), also in the middle of a case; the executor restores the initial values after every case; generator and monitor keep their own record of them and never read the package's variables while a case runs",
 		"codec_contract_note":                       "dump lines whose value was sent through the third-party codec directly (marshal, unmarshal, equal): failures are values not representable in that format; the property makes no demand on them",
 	}
 }
@@ -1057,7 +1548,7 @@ func main() {
 	debug.SetGCPercent(400) // DumpAndCompress allocates a fresh BestCompression writer (> 1 MB) per call
 	hxlib.Main(&hxlib.Harness{
 		Prop:     "C09",
-		Rule:     "a case is one schema value (Subject: nested structs, all integer widths within ±(2^53-1), ASCII/non-ASCII/YAML-hostile strings, byte and string slices, maps, pointers, nil and empty; GSubject: gencode; []byte: RAW; USubject: unmarshalable) with the real codecs' results as fact lines, followed by (roundtrip) Dump/DumpIndent/DumpAndCompress for every format id in {AUTO,RAW,CBOR,GenCode,JSON,MsgPack,YAML} + one unsupported id x compression {AUTO,GZIP,unsupported} each followed by Load/LoadAsFormat/DecompressAndLoad, or (http) DumpToHTTPRequest→LoadFromHTTPRequest→DumpToHTTPResponse→LoadFromHTTPResponse for every format id and MimeDump/MimeLoad/DumpToHTTPResponse for Accept headers from a media-range grammar (types, supported/unsupported/wildcard subtypes, parameters, q-values, ASCII and Unicode whitespace, case incl. KELVIN SIGN, garbage), or (http-wire) the same request/response cycle through a real httptest.Server connection, or (accept) FormatFromAccept on 16 such headers, or (malformed/totality) Load/DecompressAndLoad/LoadAsFormat/MimeLoad on truncations, bit flips, identifier rewrites, two-byte identifiers, gzip wrappers and random bytes. Non-trivial: every case except those on the unmarshalable type; accept cases only if a header has >= 2 elements or a parameter. Distinct by the hash of the op lines.",
+		Rule:     "a case is one schema value (Subject: nested structs, all integer widths within ±(2^53-1), ASCII/non-ASCII/YAML-hostile strings, byte and string slices, maps, pointers, nil and empty; GSubject: gencode; []byte: RAW; USubject: unmarshalable) with the real codecs' results as fact lines, followed by (roundtrip) Dump/DumpIndent/DumpAndCompress for every format id in {AUTO,RAW,CBOR,GenCode,JSON,MsgPack,YAML} + one unsupported id x compression {AUTO,GZIP,unsupported} each followed by Load/LoadAsFormat/DecompressAndLoad, or (http) DumpToHTTPRequest→LoadFromHTTPRequest→DumpToHTTPResponse→LoadFromHTTPResponse for every format id and MimeDump/MimeLoad/DumpToHTTPResponse for Accept headers from a media-range grammar (types, supported/unsupported/wildcard subtypes, parameters, q-values, ASCII and Unicode whitespace, case incl. KELVIN SIGN, garbage), or (http-wire) the same request/response cycle through a real httptest.Server connection, or (accept) FormatFromAccept on 16 such headers, or (malformed/totality) Load/DecompressAndLoad/LoadAsFormat/MimeLoad on truncations, bit flips, identifier rewrites, two-byte identifiers, gzip wrappers and random bytes, or (held) 2-6 values of one type (a value, a same-size variant, other sizes, an equal copy) dumped in mixed order through Dump/DumpIndent/DumpAndCompress/MimeDump/DumpToHTTPRequest/DumpToHTTPResponse with loads in between, every result kept as returned and loaded again later (`held`, at least twice), or (concurrent) 2-4 goroutines dumping their own values 4-15 times through 2-4 of these functions at once, all results loaded after the join. About a third of the roundtrip/http/http-wire/held/concurrent cases assign dsd.DefaultSerializationFormat (JSON, CBOR, MsgPack, YAML, GenCode, RAW, rarely a value that is no format) and dsd.DefaultCompressionFormat (`cfg` lines, also in the middle of a case); every http case sends the 'no preference' Accept values (missing header, empty, */*, *, text/*, lists with q-values). One string in eight is composed from a dictionary of escape look-alikes (backslash + u003c/u0026/u2028/ud800, JSON/YAML escapes, HTML entities, YAML indicators, control characters). Non-trivial: every case except those on the unmarshalable type; accept cases only if a header has >= 2 elements or a parameter. Distinct by the hash of the op lines.",
 		Generate: generate,
 		NewExec:  newExec,
 		Monitor:  monitor,
